@@ -606,7 +606,12 @@ func (k Keeper) RestartDutchAuctions(ctx sdk.Context, appID uint64) error {
 						// send that collateral to esm data for asset
 					}
 
-					err := k.UpdateProtocolData(ctx, dutchAuction.OutflowTokenInitAmount.Sub(dutchAuction.OutflowTokenCurrentAmount), burnToken, lockedVault.ExtendedPairId)
+					collateralSettled := dutchAuction.OutflowTokenInitAmount.Sub(dutchAuction.OutflowTokenCurrentAmount)
+					if flag {
+						// the unsold collateral went to the esm account, not back into a vault: it leaves the pair's locked total too
+						collateralSettled = dutchAuction.OutflowTokenInitAmount
+					}
+					err := k.UpdateProtocolData(ctx, collateralSettled, burnToken, lockedVault.ExtendedPairId)
 					if err != nil {
 						return err
 					}
